@@ -198,10 +198,9 @@ def make_case(rng, person=None):
                            'padding': True, 'return_set': True}
         if measure == 'OVERLAP':
             kind = rng.choice(['SizeFilter', 'PrefixFilter', 'PositionFilter', 'OverlapFilter'])
-            import math
-            # an overlap of at least 2.5 is an overlap of at least 3: the (integer) overlap size is
-            # what the size / prefix / position filters are parameterised with
-            fspec = {'kind': kind, 'measure': 'OVERLAP', 'threshold': int(math.ceil(call['threshold'])),
+            # (a fractional threshold is handed to the filter as it is: an overlap of at least 2.5 is
+            #  an overlap of at least 3 -- this crashed before the repair of F12)
+            fspec = {'kind': kind, 'measure': 'OVERLAP', 'threshold': call['threshold'],
                      'overlap_size': 1, 'comp_op': '>='}
         elif measure == 'OVERLAP_COEFFICIENT':
             fspec = {'kind': 'OverlapFilter', 'overlap_size': 1, 'comp_op': '>='}
